@@ -1,4 +1,5 @@
 import SctpVerif.Gen.Facts
+import SctpVerif.Gen.Consts
 /-!
 # C04 — state guards of the code, pinned
 
@@ -19,5 +20,9 @@ theorem C04_state_guards_pinned :
      ("Association.handleInit", ["state == shutdownAckSent", "state != closed", "state != cookieWait", "state != cookieEchoed"]),
      ("Association.handleInitAck", ["state != cookieWait", "setState cookieEchoed"]),
      ("Association.initClient", ["setState cookieWait"])] := by decide
+
+/-- **T1 retry budget**: INIT and COOKIE-ECHO are retransmitted `maxInitRetrans = 8` times before the connect attempt fails (the schedules of `C04_recovers_from_single_losses` stay far below it). -/
+theorem C04_t1_budget :
+    ("timerT1Init", "maxInitRetrans") ∈ Gen.rtxTimerSites ∧ ("timerT1Cookie", "maxInitRetrans") ∈ Gen.rtxTimerSites ∧ Gen.maxInitRetrans = 8 := by decide
 
 end C04
